@@ -76,9 +76,16 @@ def run_case(case):
         os.makedirs(root)
         build_tree(root, case['tree'])
         nest, trim = case['nest'], case['trim']
-        if case.get('ctor_opts', True):
+        mode = case.get('ctor_opts', True)
+        if mode is True:
             pop = desper.DirectoryResourcePopulator(root, nest_on_conflict=nest, trim_extensions=trim)
             call_kw = {}
+        elif mode == 'call-trim':    # only trim_extensions overridden per call
+            pop = desper.DirectoryResourcePopulator(root, nest_on_conflict=nest, trim_extensions=not trim)
+            call_kw = dict(trim_extensions=trim)
+        elif mode == 'call-nest':    # only nest_on_conflict overridden per call
+            pop = desper.DirectoryResourcePopulator(root, nest_on_conflict=not nest, trim_extensions=trim)
+            call_kw = dict(nest_on_conflict=nest)
         else:
             pop = desper.DirectoryResourcePopulator(root, nest_on_conflict=not nest, trim_extensions=not trim)
             call_kw = dict(nest_on_conflict=nest, trim_extensions=trim)
@@ -248,10 +255,16 @@ def cases(tier):
                 for nest, trim in itertools.product((True, False), repeat=2):
                     if not precondition(tree, trim):
                         continue
-                    n += 1
-                    yield {'tree': list(tree), 'rules': rules, 'nest': nest, 'trim': trim,
-                           'ctor_opts': n % 2 == 0, 'times': 1 + (n % 3 == 0),
-                           'pre': ([t for t in tree if not t.endswith('/')][:1] if n % 5 == 0 and not trim else [])}
+                    # options given at construction, per call (overriding the opposite value given
+                    # at construction), or one of each: every mode for small trees, rotating
+                    # independently of the option values for the larger ones
+                    modes = (True, False, 'call-trim', 'call-nest')
+                    for mode in (modes if k <= 2 else (modes[(n + n // 4) % 4],)):
+                        n += 1
+                        yield {'tree': list(tree), 'rules': rules, 'nest': nest, 'trim': trim,
+                               'ctor_opts': mode, 'times': 1 + (n % 3 == 0),
+                               'pre': ([t for t in tree if not t.endswith('/')][:1]
+                                       if n % 5 == 0 and not trim else [])}
 
 
 def main():
